@@ -436,6 +436,27 @@ def run_insert_select(case, mon):
         mon.violation("insert-select:%s:%s" % (what, clause), "INSERT .. SELECT (%s) does not end with the stand-alone SELECT: %r vs %r" % (d, outer[:240], alone[:200]))
         return
     mon.count("containments_confirmed")
+    # ... and with the clauses that follow the feeding SELECT (upsert handlers, RETURNING): the SELECT still stands there unchanged,
+    # directly after the column list and directly before the first of those clauses
+    tails = {"on-conflict-do-nothing": lambda q: q.on_conflict("id").do_nothing(), "on-conflict-do-update": lambda q: q.on_conflict("id").do_update("a", 1),
+             "on-conflict-do-update-where": lambda q: q.on_conflict("id").do_update("a").where(T("dst").a > 0)}
+    if d == "PostgreSQLQuery":
+        tails["returning"] = lambda q: q.returning("id")
+    for tname, tail in tails.items():
+        try:
+            full = render(tail(chain(Q.into(T("dst")).columns("id", "a").from_(t))), d, mode)
+        except Exception as e:
+            mon.violation("insert-select:embedding-raises:%s:%s" % (tname, type(e).__name__), "INSERT .. SELECT with %s raised %r although the SELECT renders alone" % (tname, e))
+            return
+        tf = norm(tokenize(full, d))
+        i = find_sub(tf, ta)
+        mon.count("insert_select_tails_checked")
+        nxt = tf[i + len(ta)] if 0 <= i and i + len(ta) < len(tf) else None
+        at_end = 0 <= i and i + len(ta) == len(tf)  # (MySQL spells DO NOTHING as INSERT IGNORE: nothing follows the SELECT)
+        if i < 0 or not (at_end or (nxt is not None and nxt[0] == "WORD" and nxt[1] in ("ON", "RETURNING"))):
+            mon.violation("insert-select:select-changed-before:%s:%s" % (tname, fam), "INSERT .. SELECT .. %s (%s): the stand-alone SELECT %r is not what stands before the clause: %r" % (
+                tname, d, alone[:160], full[:300]))
+            return
     if feats:
         mon.nontrivial(case)
 
